@@ -199,7 +199,9 @@ func plan(segmentsIn []Segment, o *Options) (*MergePlan, error) {
 				}
 			}
 
-			if len(roster) > 0 {
+			// A roster of one segment without deletions would only be
+			// rewritten into an identical segment: no progress.
+			if len(roster) > 1 || (len(roster) == 1 && roster[0].LiveSize() < roster[0].FullSize()) {
 				rosterScore := scoreSegments(roster, o)
 
 				if len(bestRoster) == 0 || rosterScore < bestRosterScore {
